@@ -108,8 +108,8 @@ impl EXD {
                 return if row_header.row_count > 1 {
                     let mut rows = Vec::new();
                     for i in 0..row_header.row_count {
-                        let subrow_offset =
-                            header_offset + (i * exh.header.data_offset + 2 * (i + 1)) as u32;
+                        let subrow_offset = header_offset
+                            + (i as u32 * exh.header.data_offset as u32 + 2 * (i as u32 + 1));
 
                         rows.push(read_row(subrow_offset).unwrap());
                     }
